@@ -1002,6 +1002,17 @@ func c01One(c *ctx, inp *bgzfInput, d *Driver, impl *[]string) {
 		}
 		*impl = append(*impl, fmt.Sprintf("%s|%s|0", strings.Join(wr.results, ","), intsJoin(dataLens)))
 	}
+	// members at the 64 KiB limit (BSIZE 0xfffd..0xffff) get their own failure class and always the byte-level tie
+	limitSig := ""
+	nearLimit := false
+	for _, m := range ms {
+		if m.Size == bgzfMaxBS {
+			limitSig = ".member-64KiB"
+		}
+		if m.Size >= bgzfMaxBS-2 {
+			nearLimit = true
+		}
+	}
 	// read back
 	readOps := in.ReadOps
 	if readOps == nil {
@@ -1021,13 +1032,13 @@ func c01One(c *ctx, inp *bgzfInput, d *Driver, impl *[]string) {
 		if len(wr.out) >= 12 && bytes.Contains(wr.out[4:12], []byte("BC\x02\x00")) {
 			sig += ".bc-in-fixed-header"
 		}
-		r.fail(sig, "NewReader on the writer's output: "+rr.newErr.Error(), in)
+		r.fail(sig+limitSig, "NewReader on the writer's output: "+rr.newErr.Error(), in)
 		return
 	case len(rr.errs) > 0:
-		r.fail("c01.roundtrip.readerr", rr.errs[0], in)
+		r.fail("c01.roundtrip.readerr"+limitSig, rr.errs[0], in)
 		return
 	case !bytes.Equal(rr.got, want):
-		r.fail("c01.roundtrip.bytes", fmt.Sprintf("read back %d bytes, wrote %d; first difference at %d", len(rr.got), len(want), firstDiff(rr.got, want)), in)
+		r.fail("c01.roundtrip.bytes"+limitSig, fmt.Sprintf("read back %d bytes, wrote %d; first difference at %d", len(rr.got), len(want), firstDiff(rr.got, want)), in)
 		return
 	case !rr.sawEOF:
 		r.fail("c01.roundtrip.noeof", "all data delivered but io.EOF never returned", in)
@@ -1041,7 +1052,7 @@ func c01One(c *ctx, inp *bgzfInput, d *Driver, impl *[]string) {
 		d.add("c01.read %s %s", intsJoin(plens), strings.Join(readOps, ","))
 		*impl = append(*impl, strings.Join(rr.results, ","))
 		// correspondence 3: the model's member walk over the produced BYTES (Member.readStream) = the library reader
-		if len(wr.out)+len(want) <= 24000 || c.rnd.coin(1, 10) {
+		if len(wr.out)+len(want) <= 24000 || nearLimit || c.rnd.coin(1, 10) {
 			readStreamTie(c, "c01", in, wr.out, ms, in.RD, d, impl)
 		}
 	}
@@ -1052,7 +1063,8 @@ func checkC01(c *ctx) {
 	r.Rule = "write scripts of 1..9 ops (Write/Flush/Wait, then Close, 1/8 with calls after Close); payload lengths from {0,1,BS-1,BS,BS+1,2BS-1..2BS+1, " +
 		"BS-next-1..BS-next+1 (active block driven to the boundary), small, uniform}; data rand|text|zero|mixed; level -1..9; wc 0..5; rd 0..4; " +
 		"read scripts: Read sizes {0,1,block length+-1,remaining+-1,BS+-1,>64KiB,random}, ReadByte runs, read on after EOF. " +
-		"1/5 of the random scripts also set gzip header fields (as in C08, restricted to what gzip.Reader accepts). " +
+		"1/5 of the random scripts also set gzip header fields (as in C08, restricted to what gzip.Reader accepts); " +
+		"12 scripts (300 thorough) put a full incompressible block (any data at level 0) under a user Extra tuned so that the member is exactly 65534/65535/65536 bytes (BSIZE up to 0xffff), levels -1..9, rd 1 and > 1. " +
 		"A case is non-trivial when at least one byte is written; distinct = distinct (ops, level, wc, rd, data kind, header, read ops)."
 	if bgzf.BlockSize != bgzfBS || bgzf.MaxBlockSize != bgzfMaxBS {
 		r.disagree("C01.const", "BlockSize/MaxBlockSize", fmt.Sprintf("%d/%d", bgzf.BlockSize, bgzf.MaxBlockSize), fmt.Sprintf("%d/%d", bgzfBS, bgzfMaxBS))
@@ -1086,6 +1098,63 @@ func checkC01(c *ctx) {
 		}
 	}
 	fixed = append(fixed, []string{"c"}, []string{"f", "t", "c"}, []string{"w0", "c"}, []string{"w1", "f", "f", "w0", "f", "c", "c"})
+	// members aimed at the 64 KiB limit: a full incompressible block (or any full block at level 0) plus a user Extra
+	// (and sometimes Name/Comment) tuned so that the member is exactly 65534, 65535 or 65536 bytes (BSIZE 0xffff, the
+	// largest legal value), written at several levels and read back with rd 1 and > 1.  (65537 = ErrBlockOverflow is C08's.)
+	nTuned := 12
+	if c.thorough() {
+		nTuned = 300
+	}
+	for i := 0; i < nTuned; i++ {
+		rnd := c.rnd.fork()
+		in := bgzfInput{
+			Level:    []int{-1, 0, 1, 9, 5, 0, 2, 6, 3, 4, 7, 8}[i%12],
+			WC:       rnd.intn(6),
+			RD:       []int{1, 2, 4, 1, 3, 0}[i%6],
+			Data:     "rand",
+			DataSeed: rnd.u64(),
+			Delay:    rnd.coin(1, 4),
+		}
+		if in.Level == 0 && rnd.coin(1, 2) {
+			in.Data = rnd.pickS([]string{"text", "zero", "mixed"})
+		}
+		in.Ops = [][]string{{"w65280", "c"}, {"w1", "w65279", "c"}, {"w65280", "f", "t", "w65280", "c"}, {"w7", "f", "w65280", "w3", "c"}}[rnd.intn(4)]
+		kinds, lens, total, _ := parseWOps(in.Ops)
+		_ = kinds
+		data := scriptData(in.Data, in.DataSeed, total)
+		// the first full block of the script
+		off := 0
+		if lens[0] == 7 {
+			off = 7
+		}
+		fl := len(flateOf(in.Level, data[off:off+bgzfBS]))
+		if rnd.coin(1, 3) {
+			in.Header.Name = genRunes(rnd, 1+rnd.intn(30), true)
+		}
+		if rnd.coin(1, 4) {
+			in.Header.Comment = genRunes(rnd, 1+rnd.intn(30), false)
+		}
+		target := []int{bgzfMaxBS, bgzfMaxBS - 1, bgzfMaxBS, bgzfMaxBS - 2}[i%4]
+		xl := target - in.Header.expectedHeaderLen() - fl - 8
+		if xl < 4 {
+			r.note("tuned case skipped: no room for a user Extra (level %d, deflate %d)", in.Level, fl)
+			continue
+		}
+		in.Header.Extra = hexs(genSubfields(rnd, xl))
+		r.hist(fmt.Sprintf("tuned.member.%d", target))
+		r.hist(fmt.Sprintf("level.%d", in.Level))
+		r.hist(fmt.Sprintf("rd.%d", in.RD))
+		c01One(c, &in, d, &impl)
+		r.eval(fmt.Sprintf("tuned/%v/%d/%d/%d/%s/%d", in.Ops, in.Level, in.WC, in.RD, in.Data, target), true)
+		if i == 0 {
+			sm := in
+			sm.Header.Extra = sm.Header.Extra[:16] + "..."
+			if len(sm.ReadOps) > 12 {
+				sm.ReadOps = append(append([]string{}, sm.ReadOps[:12]...), "...")
+			}
+			r.sample(sm)
+		}
+	}
 	for i := 0; i < n+len(fixed); i++ {
 		rnd := c.rnd.fork()
 		in := bgzfInput{
